@@ -130,6 +130,9 @@ def real_model_binding(chk):
                 m = main(args, f_err=err, return_mininec=True)
         except SystemExit:
             continue
+        except Exception as e:      # noqa -- a stored model of the repository that the program cannot build
+            chk.violation(dict(kind='real-model-cannot-be-built', exc=type(e).__name__), dict(model=os.path.basename(f), exc=repr(e)))
+            continue
         if isinstance(m, Mininec):
             inp = project_input(m)
             if inp is not None:
